@@ -54,6 +54,9 @@ class ExternalMementoFunctionBase(MementoFunctionBase, ABC):
     @property
     def cluster_name(self):
         """Name of the cluster to which this function belongs"""
+        if self._fn_reference is None:
+            # The reference is still being constructed from explicit arguments
+            return None
         return self._fn_reference.cluster_name
 
     context = None  # type: InvocationContext
@@ -196,8 +199,6 @@ class UnboundExternalMementoFunction(ExternalMementoFunctionBase):
         parameter_names: Optional[List[str]] = None,
         fn_reference: Optional[FunctionReference] = None,
     ):
-        assert fn_reference or cluster_name is not None, "Cluster name is required"
-
         if fn_reference is None:
             fn_reference = FunctionReference(
                 memento_fn=self,
